@@ -3,6 +3,7 @@ pub mod c03;
 pub mod c04;
 pub mod c05;
 pub mod c06;
+pub mod c07;
 pub mod c13;
 pub mod replay;
 
@@ -15,6 +16,7 @@ pub fn dispatch(prop: &str, tier: Tier) -> i32 {
         "C04" => c04::run(tier),
         "C05" => c05::run(tier),
         "C06" => c06::run(tier),
+        "C07" => c07::run(tier),
         "C13" => c13::run(tier),
         _ => {
             println!("MACHINERY-ERROR: unknown property {}", prop);
